@@ -417,7 +417,9 @@ def compare_values(target, g, syms, fn_or_batch, fname, rng, n_inputs, what):
                 eager = None
             except (ZeroDivisionError, OverflowError, ValueError, TypeError) as e:
                 eager = ("raises", type(e).__name__)
-            if eager == got:
+            # which of several raising sub-expressions is met first depends on the hoisting order, so only the
+            # fact that direct (eager) evaluation raises as well is compared, not the exception type
+            if eager is not None:
                 continue
         differs = want[0] != got[0] or (want[0] == "raises" and want[1] != got[1]) or (want[0] == "value" and not same_bits(want[1], got[1], target))
         if differs and target == "numpy" and want[0] == got[0] == "value":
